@@ -847,5 +847,15 @@ def rule_retained(ctx):
                         lambda i: "registration:" in i.construct or "parked:" in i.construct, 3)
 
 
-RULES = [rule_retained, rule_invalidate, rule_keycomp, rule_keyinj, rule_keyspace, rule_unhash, rule_identity, rule_memo, rule_stateless,
+def rule_corekey(ctx):
+    """Shared with C02-COREKEY (seed C13_13): the per-tree memo of compiled contractors is an in-memory cache like the
+    module-level ones — `_build_expression` takes a contractor from it and calls it without per-call overrides —
+    so every option handed to `make_contractor` must be part of the memo key."""
+    from .c02 import rule_corekey as src
+
+    return C.reuse_rule(ctx, src, "C02-COREKEY", "C13-COREKEY",
+                        "the per-tree contractor memo is keyed by every option", lambda i: True, 1)
+
+
+RULES = [rule_corekey, rule_retained, rule_invalidate, rule_keycomp, rule_keyinj, rule_keyspace, rule_unhash, rule_identity, rule_memo, rule_stateless,
          rule_whitelist, rule_dispatch, rule_hidden, rule_reusable]
